@@ -63,10 +63,12 @@ const (
 	aUpdate   // UPDATE on the established connection (resets its hold timer)
 	aDisable  // DisablePeer (administrative shutdown)
 	aEnable   // EnablePeer
+	aKeepOpen // KEEPALIVE on one connection and a valid OPEN on the other at once; arg bit 0: the KEEPALIVE goes out on the outbound connection, bit 1: the OPEN is written first
+	aDisableOpen // a valid OPEN on the outbound connection, DisablePeer arg*100 microseconds later (the OPEN handling of the outgoing connection manager races the shutdown)
 	numA07
 )
 
-var a07Names = [...]string{"accept-dial", "refuse-dial", "inbound", "open-out", "open-in", "keepalive-out", "keepalive-in", "close-out", "close-in", "wait", "open-both", "update", "disable", "enable"}
+var a07Names = [...]string{"accept-dial", "refuse-dial", "inbound", "open-out", "open-in", "keepalive-out", "keepalive-in", "close-out", "close-in", "wait", "open-both", "update", "disable", "enable", "keepalive+open", "open+disable"}
 
 type a07Ev struct {
 	Kind int `json:"kind"`
@@ -81,6 +83,8 @@ type a07Case struct {
 	HoldIn       int     `json:"hold_in"`  // ... on inbound connections
 	ConnectRetry int     `json:"connect_retry"`
 	Events       []a07Ev `json:"events"`
+	// Sched (0 = off) steers the verif yield point before the outgoing connection manager hands a connection to the FSM
+	Sched uint64 `json:"sched,omitempty"`
 }
 
 func drawA07(t *rapid.T) a07Case {
@@ -93,7 +97,10 @@ func drawA07(t *rapid.T) a07Case {
 		ConnectRetry: rapid.SampledFrom([]int{5, 10, 30}).Draw(t, "connect_retry"),
 	}
 	pool := []int{aAccept, aAccept, aAccept, aRefuse, aInbound, aInbound, aOpenOut, aOpenOut, aOpenIn, aOpenIn, aKeepOut, aKeepOut, aKeepIn, aKeepIn,
-		aCloseOut, aCloseIn, aWait, aWait, aWait, aOpenBoth, aUpdate, aDisable, aEnable, aEnable}
+		aCloseOut, aCloseIn, aWait, aWait, aWait, aOpenBoth, aUpdate, aDisable, aEnable, aEnable, aKeepOpen, aKeepOpen, aDisableOpen}
+	if rapid.IntRange(0, 1).Draw(t, "sched_on") == 1 {
+		c.Sched = uint64(rapid.IntRange(1, 1<<30).Draw(t, "sched"))
+	}
 	switch rapid.IntRange(0, 9).Draw(t, "prelude") {
 	case 4: // collision: OPEN on both at once
 		c.Events = append(c.Events, a07Ev{Kind: aInbound}, a07Ev{Kind: aAccept}, a07Ev{Kind: aOpenBoth, Arg: rapid.IntRange(0, 1).Draw(t, "pboth")})
@@ -103,6 +110,10 @@ func drawA07(t *rapid.T) a07Case {
 		c.Events = append(c.Events, a07Ev{Kind: aInbound}, a07Ev{Kind: aAccept}, a07Ev{Kind: aOpenIn}, a07Ev{Kind: aOpenOut})
 	case 7: // session on the inbound connection
 		c.Events = append(c.Events, a07Ev{Kind: aInbound}, a07Ev{Kind: aOpenIn}, a07Ev{Kind: aKeepIn})
+	case 8: // the inbound connection reaches Established at the moment the peer's OPEN arrives on the outbound one
+		c.Events = append(c.Events, a07Ev{Kind: aInbound}, a07Ev{Kind: aAccept}, a07Ev{Kind: aOpenIn}, a07Ev{Kind: aKeepOpen, Arg: rapid.IntRange(0, 1).Draw(t, "pko") * 2})
+	case 9: // administrative shutdown while the peer's OPEN on the outbound connection is being handled
+		c.Events = append(c.Events, a07Ev{Kind: aAccept}, a07Ev{Kind: aDisableOpen, Arg: rapid.IntRange(0, 3).Draw(t, "pdo")}, a07Ev{Kind: aWait, Arg: 1})
 	case 0: // plain active open
 		c.Events = append(c.Events, a07Ev{Kind: aAccept}, a07Ev{Kind: aOpenOut}, a07Ev{Kind: aKeepOut})
 	case 1: // both connections up, nothing said yet
@@ -122,6 +133,10 @@ func drawA07(t *rapid.T) a07Case {
 			e.Arg = rapid.SampledFrom([]int{0, 1, 2, 3, 3, 3, 4, 5, 5}).Draw(t, fmt.Sprintf("a%d", i))
 		case aOpenBoth:
 			e.Arg = rapid.IntRange(0, 1).Draw(t, fmt.Sprintf("a%d", i))
+		case aKeepOpen:
+			e.Arg = rapid.IntRange(0, 3).Draw(t, fmt.Sprintf("a%d", i))
+		case aDisableOpen:
+			e.Arg = rapid.IntRange(0, 3).Draw(t, fmt.Sprintf("a%d", i))
 		}
 		c.Events = append(c.Events, e)
 	}
@@ -392,6 +407,20 @@ func (r *a07Run) apply(ev a07Ev) *verifkit.Failure {
 			send(ci, "OPEN(both)", mi, 0)
 			send(co, "OPEN(both)", mo, 0)
 		}
+	case aKeepOpen:
+		ck, co := r.latest(ev.Arg&1 == 1), r.latest(ev.Arg&1 == 0)
+		if ck == nil || co == nil {
+			r.logf("keepalive+open: needs both connections, skipped")
+			return nil
+		}
+		mo, _ := r.openMsg(co, 0)
+		if ev.Arg&2 != 0 {
+			send(co, "OPEN(with keepalive)", mo, 0)
+			send(ck, "KEEPALIVE(with open)", bgp.NewBGPKeepAliveMessage(), 0)
+		} else {
+			send(ck, "KEEPALIVE(with open)", bgp.NewBGPKeepAliveMessage(), 0)
+			send(co, "OPEN(with keepalive)", mo, 0)
+		}
 	case aKeepOut, aKeepIn:
 		send(r.latest(ev.Kind == aKeepOut), "KEEPALIVE", bgp.NewBGPKeepAliveMessage(), 0)
 	case aUpdate:
@@ -402,6 +431,20 @@ func (r *a07Run) apply(ev a07Ev) *verifkit.Failure {
 				}
 			}
 		}
+	case aDisableOpen:
+		co := r.latest(true)
+		if co == nil || (len(r.down) > 0 && r.down[len(r.down)-1][1] == 0) {
+			r.logf("open+disable: no outbound connection / already down, skipped")
+			return nil
+		}
+		mo, _ := r.openMsg(co, 0)
+		send(co, "OPEN(with disable)", mo, 0)
+		if ev.Arg > 0 {
+			time.Sleep(time.Duration(ev.Arg) * 100 * time.Microsecond)
+		}
+		err := n.s.DisablePeer(context.Background(), &api.DisablePeerRequest{Address: r.peer.Addr})
+		r.logf("disable: %v", err)
+		r.down = append(r.down, [2]time.Duration{n.now(), 0})
 	case aDisable:
 		if len(r.down) > 0 && r.down[len(r.down)-1][1] == 0 {
 			return nil // already down
@@ -480,6 +523,7 @@ func (r *a07Run) verify() *verifkit.Failure {
 		srvOpen, srvKA   bool
 		openRead, kaRead bool
 		openReadAt       time.Duration
+		kaReadAt         time.Duration // when the first KEEPALIVE after the valid OPEN was read
 		complete         bool
 	}
 	var facts []*fact
@@ -499,6 +543,9 @@ func (r *a07Run) verify() *verifkit.Failure {
 		if f.openRead {
 			for _, x := range f.txs {
 				if x.typ == bgp.BGP_MSG_KEEPALIVE && x.delivered && x.readAt >= validOpen.readAt {
+					if !f.kaRead {
+						f.kaReadAt = x.readAt
+					}
 					f.kaRead = true
 				}
 			}
@@ -638,6 +685,23 @@ func (r *a07Run) verify() *verifkit.Failure {
 				continue
 			}
 			if at, ok := r.estOn[b.c.idx]; ok && at < later {
+				continue
+			}
+			// one of them completed its handshake at that very instant (KEEPALIVE on one, OPEN on the other, read by two
+			// goroutines): whether the server saw a collision of two unestablished connections or a new connection
+			// colliding with an Established one is not observable; the Established invariants above cover the second reading
+			if (a.kaRead && a.kaReadAt <= later+tol) || (b.kaRead && b.kaReadAt <= later+tol) {
+				r.labels["collision-at-established-instant"] = true
+				continue
+			}
+			// an administrative shutdown at that instant (or in force): every connection goes, with its own NOTIFICATION
+			admin := false
+			for _, iv := range r.down {
+				if later >= iv[0]-tol && (iv[1] == 0 || later <= iv[1]+tol) {
+					admin = true
+				}
+			}
+			if admin {
 				continue
 			}
 			r.labels["collision"] = true
@@ -791,6 +855,11 @@ func runA07(t *testing.T) func(c a07Case, st *verifkit.Stats) *verifkit.Failure 
 			defer n.stop()
 			d, uninstall := simDialInstall(n)
 			defer uninstall()
+			if simYieldAvailable && c.Sched != 0 {
+				simYieldOnly = "ocm."
+				simYieldInstall(c.Sched)
+				defer simYieldInstall(0)
+			}
 			r := &a07Run{c: &c, n: n, d: d, st: st, refAt: map[int]time.Duration{}, estOn: map[int]time.Duration{}, labels: map[string]bool{}}
 			cleaned := false
 			cleanup := func() {
@@ -804,6 +873,7 @@ func runA07(t *testing.T) func(c a07Case, st *verifkit.Stats) *verifkit.Failure 
 				}
 			}
 			defer cleanup()
+			n.beforeLeakCheck = cleanup
 			r.peer = &simPeerDef{Addr: "10.0.0.1", AS: 65001, ID: "10.0.0.1"}
 			if c.PeerIDHigh {
 				r.peer.ID = "200.0.0.1"
@@ -844,7 +914,6 @@ func runA07(t *testing.T) func(c a07Case, st *verifkit.Stats) *verifkit.Failure 
 			if r.labels["established"] || r.labels["collision"] || r.labels["bad-open"] {
 				st.Nontrivial()
 			}
-			cleanup()
 			if f := n.stop(); f != nil {
 				return r.fail(f.Sig, "%s", f.Msg)
 			}
